@@ -89,3 +89,12 @@ Example C05_example :
   let o := nth 8 ex_ops (NodePts [] []) in
   reply_of (handle st o) = 1 /\ state_of (handle st o) = st /\ pubs_of (handle st o) = [].
 Proof. vm_compute. repeat split; reflexivity. Qed.
+
+(* ---------- tie to the source text ----------
+   The two point types the refusals above turn on (a tombstone aimed at the root, the node type a first edge must
+   carry) are the constants data/schema.go declares (printed into Anchors/Generated.v on every run). *)
+From Verif Require Import Anchors.Generated Anchors.TieStore.
+Theorem C05_point_types_from_source :
+  go_data_PointTypeTombstone = str_tombstone /\ go_data_PointTypeNodeType = str_nodeType.
+Proof. exact (conj tie_tombstone tie_nodeType). Qed.
+Print Assumptions C05_point_types_from_source.
